@@ -5,6 +5,8 @@ helper lemmas are in Lemmas.lean.
 import BV.C06.Mono
 import BV.C06.NoFuel
 import BV.C06.Elems
+import BV.C06.Der
+import BV.C06.Shape
 import BV.Generated.C06
 namespace BV.C06
 
@@ -163,6 +165,48 @@ theorem scriptnum_roundtrip (n : Int) (hn : n.natAbs < 2 ^ 63) :
   Lemmas.scriptnum_roundtrip n hn
 
 example : numValue (encodeNum (-2147483648)) = -2147483648 := (scriptnum_roundtrip _ (by decide)).1
+
+/-! ### script forms and tokenizer -/
+
+/-- A witness program is `<OP_0 | OP_1..OP_16> <direct push of 2..40 bytes>` and nothing else: version ≤ 16,
+program length 2..40, total length = program length + 2. -/
+theorem witness_program_shape (s : Bytes) (v : Nat) (p : Bytes) (h : witnessProgram? s = some (v, p)) :
+    v ≤ 16 ∧ 2 ≤ p.length ∧ p.length ≤ 40 ∧ s.length = p.length + 2 ∧
+    ∃ vb lb, s = vb :: lb :: p ∧ lb.toNat = p.length ∧
+      (vb.toNat = 0 ∧ v = 0 ∨ 0x51 ≤ vb.toNat ∧ v = vb.toNat - 0x50) :=
+  Lemmas.witnessProgram_shape s v p h
+
+/-- P2SH and witness-program scriptPubKeys are disjoint, so `VerifyScript` applies at most one of the two
+special evaluations to the scriptPubKey itself. -/
+theorem p2sh_not_witness_program (s : Bytes) (h : isP2SH s = true) : witnessProgram? s = none :=
+  Lemmas.p2sh_not_witnessProgram s h
+
+/-- The Spec's (pinned) opcode-length table is the formula 1 / n+1 / -1 / -2 / -4, … -/
+theorem opTable_lengths_formula : opTable.map (·.2) = (List.range 256).map Lemmas.opLengthFormula :=
+  Lemmas.opTable_lengths_formula
+
+/-- … and the tokenizer consumes exactly that: a direct push opcode `n ≤ 75` takes the next `n` bytes as data
+(malformed if fewer remain), -/
+theorem tokenizer_direct_push (b : UInt8) (rest : Bytes) (h75 : b.toNat ≤ 75) :
+    getOp (b :: rest) =
+      if rest.length < b.toNat then none else some (b.toNat, rest.take b.toNat, rest.drop b.toNat) :=
+  Lemmas.getOp_direct_push b rest h75
+
+/-- an opcode ≥ OP_1NEGATE is a single byte without data. -/
+theorem tokenizer_bare_opcode (b : UInt8) (rest : Bytes) (h : 79 ≤ b.toNat) :
+    getOp (b :: rest) = some (b.toNat, [], rest) :=
+  Lemmas.getOp_bare b rest h
+
+/-! ### signature encodings -/
+
+/-- `der_strict ⊆ der_lax`: a signature that satisfies the strict DER rule (BIP66, as enforced under
+DERSIG / LOW_S / STRICTENC) is always parsed by the lax parser that feeds the curve equation, so the strict
+rule only ever removes signatures, it never changes how an accepted one is read. -/
+theorem der_strict_subset_lax (sig : Bytes) (h : isValidSignatureEncoding sig = true) :
+    (parseDerLax sig.dropLast).isSome = true :=
+  Lemmas.der_strict_subset_lax sig h
+
+example : isValidSignatureEncoding [0x30, 0x06, 0x02, 0x01, 0x01, 0x02, 0x01, 0x01, 0x01] = true := by decide
 
 /-! ### soft-fork monotonicity -/
 
